@@ -11,8 +11,8 @@ Definition label := N.
 Definition cid := N.
 Definition cname := N.
 
-Definition lkeys := gmap label (list key).            (* one cache name: label -> keys, in AddLabels order, repeats kept *)
-Definition caches := gmap cid (list key).             (* cache contents (key sets as duplicate-free lists) *)
+Notation lkeys := (gmap label (list key)).            (* one cache name: label -> keys, in AddLabels order, repeats kept *)
+Notation caches := (gmap cid (list key)).             (* cache contents (key sets as duplicate-free lists) *)
 
 Definition add_labels (lk : lkeys) (k : key) (ls : list label) : lkeys :=
   foldl (fun m l => <[l := default [] (m !! l) ++ [k]]> m) lk ls.
@@ -81,26 +81,29 @@ Definition put_back (lk : lkeys) (pending : list (label * list key)) (deleted : 
            if decide (keep = []) then m else <[lks.1 := default [] (m !! lks.1) ++ keep]> m) lk pending.
 
 (* InvalidateByLabels for one cache name *)
+(* [mid]: AddLabels calls by others that land after the cut and before the put-back *)
 Definition invalidate_name (broken : list (cid * key)) (lk : lkeys) (cs : caches) (ds : list cid) (ls : list label)
-  : bool * Z * lkeys * caches :=
+           (mid : list (key * list label)) : bool * Z * lkeys * caches :=
   let '(cut, lk1) := cut_keys lk ls [] in
+  let lk2 := foldl (fun m a => add_labels m a.1 a.2) lk1 mid in
   let '(ok, cs', cnt, deleted, pending) := del_labels broken cut cs ds [] 0 in
-  (ok, cnt, put_back lk1 pending deleted, cs').
+  (ok, cnt, put_back lk2 pending deleted, cs').
 
 Record idx := mkIdx { i_labeled : gmap cname lkeys; i_deleters : gmap cname (list cid) }.
 
 (* all names, in the order the map iteration produced (an input); stops at the first failure *)
 Fixpoint invalidate (broken : list (cid * key)) (order : list cname) (ix : idx) (cs : caches) (ls : list label) (cnt : Z)
-  : bool * Z * idx * caches :=
+         (mid : list (key * list label)) : bool * Z * idx * caches :=
   match order with
   | [] => (true, cnt, ix, cs)
   | n :: r =>
     match i_labeled ix !! n with
-    | None => invalidate broken r ix cs ls cnt
+    | None => invalidate broken r ix cs ls cnt mid
     | Some lk =>
-      let '(ok, c, lk', cs') := invalidate_name broken lk cs (default [] (i_deleters ix !! n)) ls in
+      (* interleaved AddLabels are only generated for the first name processed *)
+      let '(ok, c, lk', cs') := invalidate_name broken lk cs (default [] (i_deleters ix !! n)) ls mid in
       let ix' := mkIdx (<[n := lk']> (i_labeled ix)) (i_deleters ix) in
-      if ok then invalidate broken r ix' cs' ls (cnt + c) else (false, cnt + c, ix', cs')
+      if ok then invalidate broken r ix' cs' ls (cnt + c) [] else (false, cnt + c, ix', cs')
     end
   end.
 
